@@ -395,7 +395,7 @@ def run(ctx):
             # followed by a polluted zero pivot and under-counts the defect; established from its own pivots
             piv = envelope_pivots(exe, parse_pe(runs["envelope"]["pe"]))
             nz = sorted(abs(v) for v in piv if v != 0)
-            if nz and nz[0] < 1e-6 * nz[len(nz) // 2]:
+            if nz and nz[0] < 1e-4 * nz[len(nz) // 2]:
                 counted = ctx.violation({"kind": "E:g3", "input": txt, "envelope_pivots": piv, "defects": {a: runs[a]["res"]["defect"] for a in ALGS}},
                                         "gama-g3 --algorithm envelope reports defect %d for a free network of defect %d (pivots %.1e after %.1e)" % (env["defect"], exp_def, nz[0], nz[len(nz) // 2]),
                                         key="C19:envelope-undercounts-defect-after-tiny-pivot")
@@ -488,7 +488,7 @@ def run(ctx):
                     and int(defs["envelope"]) < int(defs[[k_ for k_ in defs if k_ != "envelope"][0]]):
                 piv = envelope_pivots(exe, pe)
                 nz = sorted(abs(v_) for v_ in piv if v_ != 0)
-                if nz and nz[0] < 1e-6 * nz[len(nz) // 2]:
+                if nz and nz[0] < 1e-4 * nz[len(nz) // 2]:
                     if not ctx.violation({"kind": "E:g3", "input": txt, "envelope_pivots": piv, "defects": defs},
                                          "Adj/envelope on the project-equation dump reports defect %s, the other algorithms %s" % (defs["envelope"], defs),
                                          key="C19:envelope-undercounts-defect-after-tiny-pivot"):
